@@ -2436,3 +2436,20 @@ def np_random_shuffle(interp, st, args, kwargs, node):
 
 
 LIBFUNCS.update({"np.ndindex": np_ndindex, "np.random.shuffle": np_random_shuffle})
+
+
+def m_recdict_pop(interp, st, base, base_node, args, kwargs, node):
+    """obj.__dict__.pop(name, default): supported when nothing of that name is stored in the record (then the default comes back, nothing changes)"""
+    if len(args) != 2 or not isinstance(args[0], str):
+        raise Outside("__dict__.pop without a constant name and a default", node)
+    if args[0] in base.rec.fields or ("__dict__:" + args[0]) in base.rec.fields:
+        raise Outside("__dict__.pop of an attribute the record holds", node)
+    cref = _M().find_class(interp, base.rec.cls, st)
+    r = _M().class_attr(interp, cref, args[0]) if cref is not None else None
+    if r is None:
+        raise Outside("__dict__.pop of a name the class does not define", node)
+    _trust("functools.cached_property: dropping the cached entry from the instance dictionary makes the next read recompute the value (decorators are not modelled: every read recomputes)")
+    return args[1]
+
+
+METHODS[("RecDictView", "pop")] = m_recdict_pop
